@@ -50,6 +50,8 @@ def leaves():
         ('scaled', lambda: D.ScaledInteger(0.1, 0, 0.3)), ('scaled2', lambda: D.ScaledInteger(0.5, -1, 1)),
         ('scaled3', lambda: D.ScaledInteger(0.01, 0, 0.29)), ('scaledbig', lambda: D.ScaledInteger(2.0, 0, 2.0 ** 60)),
         ('bool', lambda: D.BoolType()), ('enum', lambda: D.EnumType(e)),
+        # member names that read as python literals of a DIFFERENT code (range switches labelled '1', '2', ... are common)
+        ('enumlit', lambda: D.EnumType('lit', **{'1': 0, '2': 1, '10': 2, 'True': 5, 'None': 7})),
         ('str', lambda: D.StringType(1, 3)), ('stru', lambda: D.StringType(0, 5, isUTF8=True)),
         ('strmin', lambda: D.StringType(3, D.UNLIMITED)), ('blob', lambda: D.BLOBType(1, 3)), ('blob0', lambda: D.BLOBType(0, 0)),
     ]
@@ -68,11 +70,13 @@ def trees(depth, rng, limit):
         for (n1, f1), (n2, f2) in itertools.islice(itertools.product(level, lv), 0, None, 7):
             nxt.append((f'tuple({n1},{n2})', lambda f1=f1, f2=f2: D.TupleOf(f1(), f2())))
             nxt.append((f'struct({n1},{n2}?)', lambda f1=f1, f2=f2: D.StructOf(a=f1(), b=f2(), optional=['b'])))
+        for n, f in level[::5]:
+            nxt.append((f'tuple1({n})', lambda f=f: D.TupleOf(f())))         # one member: '(x,)' in the text form
         nxt.append(('limits(int)', lambda: D.LimitsType(D.IntRange(-3, 3))))
         nxt.append(('limits(dbl)', lambda: D.LimitsType(D.FloatRange(-1.5, 2.5))))
-        lim = [t for t in nxt if t[0].startswith('limits(')]
+        lim = [t for t in nxt if t[0].startswith(('limits(', 'tuple1('))][:8]
         if len(nxt) > limit:
-            nxt = rng.sample([t for t in nxt if not t[0].startswith('limits(')], limit - len(lim)) + lim
+            nxt = rng.sample([t for t in nxt if t not in lim], limit - len(lim)) + lim
         out.extend(nxt)
         level = nxt
     return out
